@@ -183,8 +183,6 @@ type walker struct {
 	crashes   int
 	envLeft   int
 	tmplLeft  int
-	// stand-alone ObjectSlices a user deleted (restored later): key -> object
-	goneSlices map[Key]*unstructured.Unstructured
 }
 
 func (wk *walker) startRandomPass() bool {
@@ -383,11 +381,11 @@ func (wk *walker) envAction() {
 			}
 		}
 	}
-	if len(userSlices)+len(wk.goneSlices) > 0 && rng.Intn(5) == 0 {
-		if gone := sortedKeys(wk.goneSlices); len(gone) > 0 && (len(userSlices) == 0 || rng.Intn(2) == 0) {
+	if len(userSlices)+len(w.GoneSlices) > 0 && rng.Intn(5) == 0 {
+		if gone := sortedKeys(w.GoneSlices); len(gone) > 0 && (len(userSlices) == 0 || rng.Intn(2) == 0) {
 			k := gone[rng.Intn(len(gone))]
-			w.EnvCreate(wk.goneSlices[k])
-			delete(wk.goneSlices, k)
+			w.EnvCreate(w.GoneSlices[k])
+			delete(w.GoneSlices, k)
 		} else {
 			k := userSlices[rng.Intn(len(userSlices))]
 			u := &unstructured.Unstructured{Object: deepCopyMap(w.Store.Snapshot(k))}
@@ -396,10 +394,10 @@ func (wk *walker) envAction() {
 				delete(md, f)
 			}
 			if w.EnvDelete(k, false) {
-				if wk.goneSlices == nil {
-					wk.goneSlices = map[Key]*unstructured.Unstructured{}
+				if w.GoneSlices == nil {
+					w.GoneSlices = map[Key]*unstructured.Unstructured{}
 				}
-				wk.goneSlices[k] = u
+				w.GoneSlices[k] = u
 			}
 		}
 		return
@@ -796,6 +794,21 @@ func moreScenarios() []Scenario {
 				{Name: "p1", Mapped: true, Class: "default", Objects: []*unstructured.Unstructured{ConfigMap("cm1", "x"), Widget("w1", 1), Widget("w4", 1)}},
 				{Name: "p2", Mapped: true, Objects: []*unstructured.Unstructured{Widget("w2", 1), ConfigMap("cm2", "x")}},
 			}))
+		}},
+		{Name: "sliced-late", Setup: func(w *World) {
+			// the ObjectSet is there before the slice of its FIRST phase (the other order of the same two creations; or the
+			// slice was deleted): the environment creates it later
+			sc, _ := ScenarioByName("sliced")
+			sc.Setup(w)
+			k := Key{pkoGroup, "ObjectSlice", NS, "sl1"}
+			u := &unstructured.Unstructured{Object: deepCopyMap(w.Store.Snapshot(k))}
+			md := metaOf(u.Object)
+			for _, f := range []string{"uid", "resourceVersion", "generation", "creationTimestamp", "deletionTimestamp", "finalizers"} {
+				delete(md, f)
+			}
+			if w.EnvDelete(k, false) {
+				w.GoneSlices = map[Key]*unstructured.Unstructured{k: u}
+			}
 		}},
 		{Name: "rolledout-2phase", Setup: func(w *World) {
 			w.EnvCreate(NewObjectSet("a1", []PhaseSpec{
